@@ -62,6 +62,11 @@ var rtVersions = []string{
 	"gauge c by k\ngauge d by k\ncounter lseen\n/^(\\w+)$/ {\n  c[$1]++\n  d[$1]++\n}\nlseen++\n",
 	// 13: two counters c, d
 	"counter c by k\ncounter d by k\ncounter lseen\n/^(\\w+)$/ {\n  c[$1]++\n  d[$1]++\n}\nlseen++\n",
+	// 14, 15: an integer division / modulus by a zero that only exists at run time, on every matching line
+	"counter c by k\ncounter lseen\n/^(\\w+)$/ {\n  1 / (len($1) - len($1)) > 0 {\n    c[$1]++\n  }\n}\nlseen++\n",
+	"counter c by k\ncounter lseen\n/^(\\w+)$/ {\n  7 % (len($1) - len($1)) > 0 {\n    c[$1]++\n  }\n}\nlseen++\n",
+	// 16: the keys of version 5 in the other order (same number of keys, another list)
+	"counter c by j, k\ncounter lseen\n/^(\\w+)$/ {\n  c[$1][$1]++\n}\nlseen++\n",
 }
 
 type rtDecl struct {
@@ -101,7 +106,7 @@ func rtCatalogue() []rtVersion {
 					v.decls = append(v.decls, d)
 				}
 			}
-			v.rterr = id == 9
+			v.rterr = id == 9 || id == 14 || id == 15
 			rtCat = append(rtCat, v)
 		}
 	})
@@ -233,6 +238,14 @@ func (e *rtEnv) apply(op string) {
 	case "rm":
 		_ = os.RemoveAll(filepath.Join(e.dir, p[1]))
 	case "mv":
+		// only plain files are renamed, and never onto a directory (the model's file system has no
+		// directory contents)
+		if fi, err := os.Stat(filepath.Join(e.dir, p[1])); err != nil || fi.IsDir() {
+			return
+		}
+		if fi, err := os.Stat(filepath.Join(e.dir, p[2])); err == nil && fi.IsDir() {
+			return
+		}
 		_ = os.Rename(filepath.Join(e.dir, p[1]), filepath.Join(e.dir, p[2]))
 	case "mkdir":
 		_ = os.Mkdir(filepath.Join(e.dir, p[1]), 0o755)
